@@ -31,6 +31,8 @@ def make_setup(prog, sl):
         return drive.impl_mode(prog, B, sl=sl)
     if mode == 'front':
         return drive.front_mode(prog, sl)
+    if mode == 'front-item':
+        return drive.front_item_mode(prog, sl)
     raise ValueError(mode)
 
 
@@ -175,6 +177,7 @@ def concretize_case(prog, pr, model):
     try:
         conc = replay.concretize(prog, pr, model=model)
         pred = replay.predicted_flat(pr, conc)
+        json.dumps([conc['item_flat'], pred])   # must be plain data (no solver terms left)
         return dict(macro=conc['macro'], attr_src=conc['attr_src'], item_src=conc['item_src'], item_flat=conc['item_flat'], pred=pred,
                     kind=pr.kind)
     except Exception as e:
